@@ -20,7 +20,8 @@ CONSTANTS Names,        \* finite set of integers: key / trigger names
           Deadlines,    \* deadlines offered to Store, relative like `now'
           TrigSets,     \* trigger sets offered to Store (subsets of Names)
           MaxNow,       \* clock bound (state constraint)
-          MaxStores     \* bound on value ids (state constraint)
+          MaxStores,    \* bound on value ids (state constraint)
+          Shared        \* TRUE: process-shared back-end under memory pressure - Next also takes the named deviations
 
 VARIABLES now, limit, last, dead, present, order, res, nv
 
@@ -74,6 +75,36 @@ Store(k, v, ts, dl) ==
         /\ res' = [NoRes EXCEPT !.op = "store", !.k = k]
         /\ UNCHANGED <<now, limit>>
 
+(* Shared-memory deviations, named (DESIGN.md 3/C08): while memory is short a store keeps evicting beyond what  *)
+(* the limit requires - each further victim still chosen by the rule (an expired entry first, else the least    *)
+(* recently used) -, a value that cannot be allocated is dropped (the key's old entry is gone), and an          *)
+(* allocation failure inside the critical section empties the cache.                                            *)
+RECURSIVE EvictMore(_, _)
+EvictMore(P, O) ==
+    (IF limit = 0 \/ Cardinality(P) < limit THEN { <<P, O>> } ELSE {})
+    \cup (IF P = {} THEN {}
+          ELSE IF ExpiredIn(P) # {}
+               THEN UNION { EvictMore(P \ {k}, Without(O, k)) : k \in ExpiredIn(P) }
+               ELSE EvictMore(P \ {O[Len(O)]}, Without(O, O[Len(O)])))
+
+StoreUnderPressure(k, v, ts, dl) ==
+    LET P0 == present \ {k}
+        O0 == Without(order, k)
+        newlast == [last EXCEPT ![k] = [has |-> TRUE, v |-> v, ts |-> ts \cup {k}, dl |-> dl]]
+    IN /\ last' = newlast
+       /\ res' = [NoRes EXCEPT !.op = "store", !.k = k]
+       /\ UNCHANGED <<now, limit>>
+       /\ \/ \E po \in EvictMore(P0, O0) :                       \* stored, possibly after extra evictions
+                /\ present' = po[1] \cup {k} /\ order' = <<k>> \o po[2]
+                /\ dead' = [j \in Names |-> IF j = k THEN FALSE ELSE IF j \in P0 \ po[1] THEN TRUE ELSE dead[j]]
+          \/ /\ present' = P0 /\ order' = O0                       \* StoreDropped
+             /\ dead' = [dead EXCEPT ![k] = TRUE]
+          \/ \E po \in EvictMore(P0, O0) :                       \* evictions first, then the value still did not fit
+                /\ present' = po[1] /\ order' = po[2]
+                /\ dead' = [j \in Names |-> IF j = k \/ j \in P0 \ po[1] THEN TRUE ELSE dead[j]]
+          \/ /\ present' = {} /\ order' = <<>>                     \* StoreClearedAll
+             /\ dead' = [j \in Names |-> TRUE]
+
 Fetch(k) ==
     /\ IF k \in present /\ last[k].dl >= now
        THEN /\ res' = [op |-> "fetch", k |-> k, hit |-> TRUE, v |-> last[k].v,
@@ -113,6 +144,9 @@ Next ==
     \/ \E k \in Names, ts \in TrigSets, dl \in Deadlines :
           /\ nv' = nv + 1
           /\ Store(k, nv + 1, ts, dl)
+    \/ (Shared /\ \E k \in Names, ts \in TrigSets, dl \in Deadlines :
+          /\ nv' = nv + 1
+          /\ StoreUnderPressure(k, nv + 1, ts, dl))
     \/ \E k \in Names : Fetch(k)
     \/ \E t \in Names : Rise(t)
     \/ \E k \in Names : Remove(k)
@@ -162,6 +196,21 @@ EvictRule ==
              /\ \A j \in V : \/ last[j].dl < now
                               \/ (ExpiredIn(P0) = {} /\ j = O0[Len(O0)])
              /\ (limit > 0 /\ Cardinality(P0) >= limit) => V # {}
+      ]_vars
+
+(* generalisation of EvictRule to several victims in one store (memory pressure): every expired entry goes  *)
+(* before any live one, and the live victims are the least recently used ones, in order.                    *)
+LiveTail(O, m) == { O[i] : i \in (Len(O) - m + 1)..Len(O) }
+EvictOrder ==
+    [][ res'.op = "store" =>
+          LET k  == res'.k
+              P0 == present \ {k}
+              O0 == Without(order, k)
+              V  == P0 \ (present' \ {k})
+              VL == { j \in V : ~(last[j].dl < now) }
+              OL == SelectSeq(O0, LAMBDA j : ~(last[j].dl < now))
+          IN /\ (VL # {} => ExpiredIn(P0) \subseteq V)
+             /\ VL = LiveTail(OL, Cardinality(VL))
       ]_vars
 
 OnlyStoreEvicts ==
